@@ -294,9 +294,54 @@ def optSuffix2 (w : World) (p : GSpec.Parsed) (key : String) : Option String :=
     | _, _ => none
   | some _ => none
 
+def fmtOf : String → Option GraphFmt.Fmt
+  | "kthlist" => some .kthlist
+  | "dimacs" => some .dimacs
+  | "matrix" => some .matrix
+  | _ => none                    -- gml / dot are written and parsed by third-party code
+
+def gfType : String → Option GraphFmt.GType
+  | "simple" => some .simple
+  | "bipartite" => some .bipartite
+  | _ => none
+
+def anyOf : GCli.CG → Option GraphFmt.AnyG
+  | .simple G => some (.simple G)
+  | .bip G => some (.bip G)
+  | _ => none
+
+def cgOf : GraphFmt.AnyG → GCli.CG
+  | .simple G => .simple G
+  | .bip G => .bip G
+  | .di G => .dag G
+
+/-- the source of the graph: a construction (with its third-party part run on the stream) or a FILE, whose content is part
+of the environment (`w.files`, by the path token as written on the command line) -/
+def sourceWorld (w : World) (ty : String) (p : GSpec.Parsed) (ds : Stream) :
+    Except Outcome (GSpec.World × Option String × Stream) :=
+  match p.construction, p.filename, p.fileformat with
+  | some _, _, _ =>
+    match specExt w p ds with
+    | .error o => .error o
+    | .ok (e, ds1) => .ok ({ w.gw with ext := e }, baseName w p, ds1)
+  | none, some fn, some ff =>
+    match w.files fn, gfType ty with
+    | some content, some gty =>
+      let f := if ff == "autodetect" then GSpec.extension fn else ff
+      if f == "gml" || f == "dot" then .error (.unsupported "third-party graph format")
+      else
+        let rd : GRand.RM GCli.CG := match fmtOf f with
+          | some fmt => fun ds' => match GraphFmt.readText true gty fmt content.toList with
+            | .ok G => .ok (cgOf G) ds'
+            | .error e => .exc e
+          | none => fun _ => .stuck
+        .ok ({ w.gw with openFile := .ok (), readGraph := rd },
+             some (ty ++ " graph from file '" ++ fn ++ "' (format: " ++ f ++ ")"), ds)
+    | _, _ => .error (.unsupported "graph file outside the environment")
+  | _, _, _ => .error (.unsupported "graph source")
+
 /-- the name with the suffixes of the modifiers, in the order `obtain_graph` applies them -/
-def graphName (w : World) (p : GSpec.Parsed) : Option String := do
-  let b ← baseName w p
+def withSuffixes (w : World) (p : GSpec.Parsed) (b : String) : Option String := do
   let s1 ← optSuffix w p "plantclique" " + planted " "-clique"
   let s1' ← optSuffix2 w p "plantbiclique"
   let s2 ← optSuffix w p "addedges" " + " " random edges"
@@ -304,24 +349,31 @@ def graphName (w : World) (p : GSpec.Parsed) : Option String := do
   pure (b ++ s1 ++ s1' ++ s2 ++ s3)
 
 /-- `make_graph_from_spec(ty, toks)` inside an `Obtain…Graph.__call__`, on the stream: the graph, its name, what is left
-of the stream -/
+of the stream, and the file `save` writes (path token, text) -/
 def makeGraph (w : World) (ty : String) (toks : List String) (ds : Stream) :
-    Except Outcome ((GCli.CG × String) × Stream) :=
+    Except Outcome ((GCli.CG × String) × Stream × List (String × String)) :=
   match GSpec.parseGraphArgument ty toks w.gw.dot with
   | .error e => .error (ofErr e)                     -- `except ValueError: parser.error(...)`
   | .ok p =>
-    if p.save.isSome then .error (.unsupported "save")
-    else if p.construction.isNone then .error (.unsupported "graph file")
-    else
-      match specExt w p ds with
+    match sourceWorld w ty p ds with
+    | .error o => .error o
+    | .ok (gw, base, ds1) =>
+      match runG (GSpec.makeGraphFromSpec gw ty toks) ds1 with
       | .error o => .error o
-      | .ok (e, ds1) =>
-        match runG (GSpec.makeGraphFromSpec { w.gw with ext := e } ty toks) ds1 with
-        | .error o => .error o
-        | .ok ((G, _), ds2) =>
-          match graphName w p with
-          | some nm => .ok ((G, nm), ds2)
-          | none => .error (.unsupported "graph name")
+      | .ok ((G, saved), ds2) =>
+        match base.bind (withSuffixes w p) with
+        | none => .error (.unsupported "graph name")
+        | some nm =>
+          match saved, p.save with
+          | none, _ => .ok ((G, nm), ds2, [])
+          | some S, some [f, fn] =>
+            match (GSpec.resolveFormat w.gw.dot ty f fn).bind fmtOf, gfType ty, anyOf S with
+            | some fmt, some gty, some A =>
+              match GraphFmt.writeText nm.toList gty fmt A with
+              | .ok txt => .ok ((G, nm), ds2, [(fn, String.ofList txt)])
+              | .error e => .error (ofErr e)
+            | _, _, _ => .error (.unsupported "save in a third-party format")
+          | some _, _ => .error (.unsupported "save")
 
 /-! ### the `-T` chain -/
 
@@ -461,6 +513,7 @@ structure Parsed where
   graph : Option (GCli.CG × String)
   rng : Stream
   used : Nat
+  written : List (String × String) := []
 
 /-- the sub-command: its words are converted, its graph argument is materialised; then the chunks after each `-T` -/
 def parseRest (w : World) (top : Top) (tcmds : List (List String)) (rng1 : Stream) : Except Outcome Parsed :=
@@ -470,16 +523,16 @@ def parseRest (w : World) (top : Top) (tcmds : List (List String)) (rng1 : Strea
     match dispatchNamed "formula" sub words with
     | .error e => .error (ofCliErr e)
     | .ok call =>
-      let g : Except Outcome (Option (GCli.CG × String) × Stream) :=
+      let g : Except Outcome (Option (GCli.CG × String) × Stream × List (String × String)) :=
         match (if tseitinShortcut sub words then none else graphToks call) with
-        | none => .ok (none, rng1)
+        | none => .ok (none, rng1, [])
         | some (ty, toks) => (makeGraph w ty toks rng1).map (fun r => (some r.1, r.2))
       match g with
       | .error o => .error o
-      | .ok (gr, rng2) =>
+      | .ok (gr, rng2, wr) =>
         match parseChain tcmds with
         | .error o => .error o
-        | .ok chain => .ok ⟨call, chain, gr, rng2, rng1.length - rng2.length⟩
+        | .ok chain => .ok ⟨call, chain, gr, rng2, rng1.length - rng2.length, wr⟩
 
 /-- `parse_command_line`: the command line is split around `-T`; options of the main parser (the `--seed` action seeds
 at once when the table says so), then the sub-command, then the transformations -/
@@ -496,7 +549,7 @@ def stepParse (σ : Int → Rng) (w : World) (t : ToolPhases) (argv : List Strin
     match parseRest w top (parseCommandLine argv).2 rng1.parse with
     | .error o => .error o
     | .ok p => .ok { st with rng := { rng1 with parse := p.rng }, top := top, call := some p.call, chain := p.chain, graph := p.graph,
-                             usedGraph := st.usedGraph + p.used }
+                             usedGraph := st.usedGraph + p.used, written := st.written ++ p.written }
 
 /-- `[random.randint(0, 1) for _ in range(n)]` -/
 def randBits : Nat → Rand.RandM (List Int)
